@@ -57,6 +57,7 @@ theorem step_hist {σ σ' : St} (a : Act) (h : σ.step a = some σ') :
   | publish o u => obtain ⟨_, _, _, _, _, _, _, _, _, rfl⟩ := publish_spec h; rfl
   | dropSnapshot => obtain ⟨_, _, _, rfl⟩ := dropSnapshot_spec h; rfl
   | takeView c => obtain ⟨_, rfl⟩ := takeView_spec h; rfl
+  | loaderRef => obtain ⟨_, rfl⟩ := loaderRef_spec h; rfl
   | openCursors i => obtain ⟨_, _, _, rfl⟩ := openCursors_spec h; rfl
   | readView i =>
     simp only [St.step] at h
@@ -250,6 +251,9 @@ theorem unlink_only_unreferenced {σ σ' : St} (hreach : Reach σ) (a : Act) (h 
   | takeView c =>
     obtain ⟨_, rfl⟩ := takeView_spec h
     dsimp only at hu; rw [refFiles_apply] at hu; exact Or.inl hu
+  | loaderRef =>
+    obtain ⟨_, rfl⟩ := loaderRef_spec h
+    dsimp only at hu; rw [refFiles_apply] at hu; exact Or.inl hu
   | openCursors i => obtain ⟨_, _, _, rfl⟩ := openCursors_spec h; exact Or.inl hu
   | readView i =>
     simp only [St.step] at h
@@ -332,6 +336,7 @@ theorem readable_while_open {σ : St} (h : Reach σ) (hc : σ.closed = false) (v
       | publish o u => obtain ⟨_, _, _, _, _, _, _, _, _, rfl⟩ := publish_spec hs; exact ih hc
       | dropSnapshot => obtain ⟨_, _, _, rfl⟩ := dropSnapshot_spec hs; exact ih hc
       | takeView c => obtain ⟨_, rfl⟩ := takeView_spec hs; exact ih hc
+      | loaderRef => obtain ⟨_, rfl⟩ := loaderRef_spec hs; exact ih hc
       | openCursors i => obtain ⟨_, _, _, rfl⟩ := openCursors_spec hs; exact ih hc
       | readView i =>
         simp only [St.step] at hs
@@ -354,6 +359,117 @@ theorem no_write_after_close {σ : St} (h : Reach σ) (hc : σ.closed = true) (b
   split
   · rfl
   · simp [hc]
+
+/-! ### every actor that holds files -/
+
+/-- **T3 for the id-time loader** (and for any other holder): `no_use_after_unlink` and
+`unlink_only_unreferenced` speak about every entry of `views`, whoever it belongs to. The
+sequencer's loader enters `views` with `loaderRef` (fix 8af6340: a reference on every listed
+file, taken under the list lock), so while it reads, none of its files is unlinked or closed,
+whatever compaction or merge replaces them meanwhile. Compaction and merge inputs are protected
+differently: `plan` marks them `busy`, only the actor that planned them retires them
+(`newOK` of the replace steps), so they need no count. -/
+theorem loader_no_use_after_unlink {σ : St} (h : Reach σ) (v : View) (hv : v ∈ σ.views) (_hl : v.loader = true) :
+    ∀ f ∈ v.ooo ++ v.ord, (σ.files f).unlinked = false ∧ (σ.files f).present = true ∧ 0 < (σ.files f).refs :=
+  (no_use_after_unlink h v hv).1
+
+/-- the loader references exactly what is listed at that moment, atomically. -/
+theorem loaderRef_holds_listed {σ σ' : St} (h : σ.loaderRef = some σ') :
+    ∃ v, σ'.views = σ.views ++ [v] ∧ v.loader = true ∧ v.ooo = σ.ooo ∧ v.ord = σ.ord ∧
+      ∀ f, (σ'.files f).refs = (σ.files f).refs + (σ.ooo ++ σ.ord).count f := by
+  obtain ⟨_, rfl⟩ := loaderRef_spec h
+  refine ⟨σ.loaderView, rfl, rfl, rfl, rfl, fun f => ?_⟩
+  show (refFiles σ.files (σ.ooo ++ σ.ord) f).refs = _
+  rw [refFiles_apply]
+
+/-! ### the flush split -/
+
+/-- **late rows go out of order.** With the sequencer loaded (`lastFlush` is exact - which is
+what the loader is for), every row that `publish` puts into the new ORDERED file is newer than
+the series' last flushed time, and its key occurs in no file listed so far: a (series, time) is
+never in two ordered files, a row older than the series' last flushed time never goes into an
+ordered file. -/
+theorem late_rows_go_out_of_order {σ σ' : St} (h : Reach σ) {o u : Option FileId}
+    (hp : σ.publish o u = some σ') (n : FileId) (ho : o = some n) (c : Cell) (hc : c ∈ (σ'.files n).cells) :
+    OG.C02.isOrdered σ.lastFlush c = true ∧ ∀ d ∈ fileCells σ.files (σ.ooo ++ σ.ord), c.key ≠ d.key := by
+  obtain ⟨t, _, _, _, _, _, _, _, hne, rfl⟩ := publish_spec hp
+  subst ho
+  have hun : u ≠ some n := by
+    rcases hne with h1 | h1
+    · cases h1
+    · exact fun e => h1 e.symm
+  have hfile : ∀ (X Y : File), addOpt (addOpt σ.files (some n) X) u Y n = X := by
+    intro X Y
+    cases u with
+    | none => simp [addOpt, upd]
+    | some b =>
+      have : n ≠ b := fun e => hun (by rw [e])
+      simp [addOpt, upd, this]
+  dsimp only at hc
+  rw [hfile] at hc
+  have hord := (List.mem_filter.1 hc).2
+  exact ⟨hord, fun d hd => ordered_disjoint_below σ.lastFlush c d hord ((reach_invL h).below d hd)⟩
+
+/-! ### one query, several series cursors -/
+
+/-- views that belong to one query: taken by one client in one `takeView` critical section
+(same tables, same file lists, same acknowledged history). The code opens the series cursors of
+a query one after the other (`getSortedRecSafe` per series, each under the series' own lock); in
+the model a query over n series is n views taken back to back, each with its own
+`openCursors`, view i being read for series i only (`readSeries`). -/
+def sameQuery (v1 v2 : View) : Prop :=
+  v1.client = v2.client ∧ v1.base = v2.base ∧ v1.act = v2.act ∧ v1.snap = v2.snap ∧ v1.ooo = v2.ooo ∧ v1.ord = v2.ord
+
+instance (v1 v2 : View) : Decidable (sameQuery v1 v2) := by unfold sameQuery; infer_instance
+
+/-- the statement the first round claimed for a whole query: one prefix of the acknowledgement
+history for all its series. It is **false** for the code and - with per-series cursors - for
+the model (`query_single_prefix_full_false`). The property's text does not ask for it. -/
+def query_single_prefix_full : Prop :=
+  ∀ σ, Reach σ → ∀ v1 ∈ σ.views, ∀ v2 ∈ σ.views, sameQuery v1 v2 → v1.ok = true → v2.ok = true → v1.seen = v2.seen
+
+/-- the schedule the lock-point harness found (Q stopped between two series cursors, a whole write
+batch runs): the cursor of series 0 is opened before the batch, the one of series 1 after it. -/
+def exSplit : List Act :=
+  [.write [⟨0, 1, [("f", "a")]⟩, ⟨1, 1, [("f", "a")]⟩], .takeView 1, .takeView 1, .openCursors 0,
+   .write [⟨0, 2, [("f", "b")]⟩, ⟨1, 2, [("f", "b")]⟩], .openCursors 1]
+
+def splitWitness (σ : St) : Bool :=
+  match σ.views with
+  | [v1, v2] => decide (sameQuery v1 v2) && v1.ok && v2.ok && decide (v1.seen ≠ v2.seen)
+  | _ => false
+
+theorem query_single_prefix_full_false : ¬ query_single_prefix_full := by
+  intro hfull
+  cases hr : run St.init exSplit with
+  | none =>
+    have : (run St.init exSplit).isSome = true := by decide
+    rw [hr] at this; cases this
+  | some σ =>
+    have key : (run St.init exSplit).map splitWitness = some true := by decide
+    rw [hr] at key
+    simp only [Option.map_some, Option.some.injEq] at key
+    unfold splitWitness at key
+    split at key
+    · rename_i v1 v2 hv
+      simp only [Bool.and_eq_true, decide_eq_true_eq] at key
+      obtain ⟨⟨⟨hs, h1⟩, h2⟩, hne⟩ := key
+      exact hne (hfull σ (reach_run Reach.init _ hr) v1 (by rw [hv]; simp) v2 (by rw [hv]; simp) hs h1 h2)
+    · cases key
+
+/-- **what the code has: a prefix per series.** Every view (series cursor) of a query reads the
+last-write-wins value of its own prefix of the acknowledgement history; all these prefixes
+contain the history at the moment the query took its view, so no cursor misses anything that was
+acknowledged before the query began, whichever series it serves. -/
+theorem query_per_series_prefix {σ : St} (h : Reach σ) (v1 v2 : View) (hv1 : v1 ∈ σ.views) (hv2 : v2 ∈ σ.views)
+    (hs : sameQuery v1 v2) (hok1 : v1.ok = true) (hok2 : v2.ok = true) :
+    Equiv (σ.viewCells v1) v1.seen ∧ Equiv (σ.viewCells v2) v2.seen ∧
+    v1.base <:+ v1.seen ∧ v1.base <:+ v2.seen ∧ v1.seen <:+ σ.hist ∧ v2.seen <:+ σ.hist ∧
+    (∀ k, lookup k v1.base ≠ none → lookup k (σ.viewCells v1) ≠ none ∧ lookup k (σ.viewCells v2) ≠ none) := by
+  obtain ⟨e1, b1, s1, m1, _⟩ := view_exactly_once h v1 hv1 hok1
+  obtain ⟨e2, b2, s2, m2, _⟩ := view_exactly_once h v2 hv2 hok2
+  have hb : v2.base = v1.base := hs.2.1.symm
+  refine ⟨e1, e2, b1, hb ▸ b2, s1, s2, fun k hk => ⟨m1 k hk, m2 k (hb ▸ hk)⟩⟩
 
 end OG.C04
 
@@ -417,6 +533,32 @@ example : (match run St.init [.write [⟨0, 1, [("f", "a")]⟩], .switch, .close
         (match run σ [.publish (some "o1") none, .dropSnapshot, .closeFiles] with
           | some σ2 => σ2.filesClosed
           | none => false)
+    | none => false) = true := by decide
+
+/-- the loader holds a file across the compaction that replaces it: the file is renamed, not
+unlinked, the collector is blocked until the loader released it. -/
+example : (match run St.init [.write [⟨0, 5, [("f", "a")]⟩], .switch, .publish (some "o1") none, .dropSnapshot,
+      .loaderRef, .plan ["o1"], .replaceOrd ["o1"] ["o2"]] with
+    | some σ => (σ.files "o1").pending && !(σ.files "o1").unlinked && (σ.gc "o1").isNone &&
+        σ.views.map (·.loader) == [true] &&
+        (match run σ [.readView 0, .release 0, .gc "o1"] with
+          | some σ' => (σ'.files "o1").unlinked
+          | none => false)
+    | none => false) = true := by decide
+
+/-- the flush split: the late row (time 1 after time 5 was flushed) goes to the out-of-order file. -/
+example : (match run St.init [.write [⟨0, 5, [("f", "a")]⟩], .switch, .publish (some "o1") none, .dropSnapshot,
+      .write [⟨0, 1, [("f", "b")]⟩, ⟨0, 7, [("f", "c")]⟩], .switch, .publish (some "o2") (some "u1")] with
+    | some σ => (σ.files "o2").cells.map (·.t) == [7] && (σ.files "u1").cells.map (·.t) == [1]
+    | none => false) = true := by decide
+
+/-- per-series cursors: series 0 through view 0 reflects the first batch only, series 1 through
+view 1 both batches; both contain everything acknowledged before the query took its view. -/
+example : (match run St.init exSplit with
+    | some σ => (match σ.views with
+      | [v1, v2] => (OG.C02.readSeries (σ.viewCells v1) 0 (-10) 10 true ["f"]).map (·.2.1) == [1] &&
+                    (OG.C02.readSeries (σ.viewCells v2) 1 (-10) 10 true ["f"]).map (·.2.1) == [1, 2]
+      | _ => false)
     | none => false) = true := by decide
 
 end OG.C04
